@@ -27,8 +27,9 @@ EPS_EXACT = 2.0 ** -10
 # --------------------------------------------------------------------------- helpers
 
 def fr(a):
-  """numpy array -> list of exact Fractions (row-major)"""
-  return [F(float(v)) for v in np.asarray(a, dtype=np.float64).ravel()]
+  """numpy array -> list of exact Fractions (row-major); non-finite entries stay floats (they never
+  equal a model value)"""
+  return [F(float(v)) if np.isfinite(v) else float(v) for v in np.asarray(a, dtype=np.float64).ravel()]
 
 
 def enc(a):
@@ -342,6 +343,11 @@ def stream_layers(run, tf, qkeras, rng, tier):
       continue
     if err is not None:
       run.violate("callable", dict(key, why="raises"), {"case": case_desc(c), "error": err}, mirrored=False)
+      continue
+    if not (np.all(np.isfinite(y_impl)) and np.all(np.isfinite(fk_impl)) and np.all(np.isfinite(fb_impl))):
+      run.count("clause:finite:FAILS")
+      run.violate("finite", key, {"case": case_desc(c), "what": "non-finite layer output or folded weights"},
+                  mirrored=False)
       continue
     yi = fr(y_impl)
     fki, fbi = fr(fk_impl), fr(fb_impl)
@@ -674,8 +680,16 @@ def stream_unfold(run, tf, qkeras, rng, tier):
       m = build_keras(tf, qkeras, ish, spec, rng)
       x = dy(rng, (2,) + ish, 2, -1)
       y = m.predict(x, verbose=0)
-      um = bn_folding_utils.unfold_model(m)
-      yu = um.predict(x, verbose=0)
+      try:
+        um = bn_folding_utils.unfold_model(m)
+        yu = um.predict(x, verbose=0)
+      except Exception as e:  # pylint: disable=broad-except
+        run.case(("unfold-raises", len(jobs), tname))
+        run.count("clause:conversion_runs:FAILS")
+        run.violate("conversion_runs", {"stream": "unfold", "api": "unfold_model", "template": tname},
+                    {"model": spec_desc(tname, spec), "error": "%s: %s" % (type(e).__name__, str(e)[:300])},
+                    mirrored=False)
+        continue
       line, names = lean_graph_line(tf, m, spec, x, run)
       # structure of the unfolded model: classes, use_bias, transferred weights
       struct_ok = True
@@ -734,8 +748,16 @@ def stream_to_folded(run, tf, qkeras, rng, tier):
         m = build_keras(tf, qkeras, ish, spec, rng)
         x = dy(rng, (2,) + ish, 2, -1)
         y = m.predict(x, verbose=0)
-        fm, ltf = qutils.convert_to_folded_model(m)
-        yfm = fm.predict(x, verbose=0)
+        try:
+          fm, ltf = qutils.convert_to_folded_model(m)
+          yfm = fm.predict(x, verbose=0)
+        except Exception as e:  # pylint: disable=broad-except
+          run.case(("to_folded-raises", len(jobs), tname, variant))
+          run.count("clause:conversion_runs:FAILS")
+          run.violate("conversion_runs", {"stream": "to_folded", "api": "convert_to_folded_model", "template": tname},
+                      {"model": spec_desc(tname, spec), "error": "%s: %s" % (type(e).__name__, str(e)[:300])},
+                      mirrored=False)
+          continue
         rec = {"tname": tname, "variant": variant, "spec": spec, "x": x, "y": y, "ltf": list(ltf),
                "fm_layers": [l.name for l in fm.layers], "yfm": yfm}
         by = {nd["name"]: nd for nd in spec}
@@ -759,7 +781,16 @@ def stream_to_folded(run, tf, qkeras, rng, tier):
         line, names = lean_graph_line(tf, m, spec, x, run, hasq=hasq)
         rec["line"], rec["names"] = line, names
         if qcfg is not None:
-          qm = qutils.model_quantize(m, qcfg, 4, transfer_weights=True, enable_bn_folding=True)
+          try:
+            qm = qutils.model_quantize(m, qcfg, 4, transfer_weights=True, enable_bn_folding=True)
+          except Exception as e:  # pylint: disable=broad-except
+            run.case(("model_quantize-raises", len(jobs), tname, variant))
+            run.count("clause:conversion_runs:FAILS")
+            run.violate("conversion_runs", {"stream": "to_folded", "api": "model_quantize", "template": tname,
+                                            "variant": variant},
+                        {"model": spec_desc(tname, spec), "error": "%s: %s" % (type(e).__name__, str(e)[:300])},
+                        mirrored=False)
+            continue
           rec["q_classes"] = {l.name: l.__class__.__name__ for l in qm.layers}
           rec["src_classes"] = {l.name: l.__class__.__name__ for l in m.layers}
           rec["yq"] = qm.predict(x, verbose=0)
